@@ -77,6 +77,19 @@ theorem reader_loop_facts :
   intro first last
   constructor <;> simp [resolve, Gen.decoderFacts]
 
+/-- the text the statement-level model (Model/PullReader.lean) was written against, with the error plumbing
+(`if err = f(); err != nil { return }` ↦ `must(f())`), the debug output and the bodies of function literals removed:
+`readMessage` (↔ `Pull.readMessage` / `headerLoop`), `readMessageV1` (↔ `Pull.readMessageV1` / `v1Body`: the loop
+condition, pop on `remain == 0`, header, the wrapper branch with `extractOffset` / `markRead` / push / `continue`,
+`offset += base`, the skip below `min`, key, value, `markRead`, `return`; `errShortRead` after the loop), `markRead`,
+`unwindStack` (↔ `Pull.markRead` / `unwind`) -/
+theorem pull_model_text :
+    Gen.decoderFacts.msrReadMessage = "{ if $r.empty { $1 = RequestTimedOut return } for { must($r.readHeader()) if $r.header.magic != 2 || $r.count != 0 { break } } switch $r.header.magic { case 0, 1: $2, $3, $4, $1 = $r.readMessageV1($5, $6, $7) $8 = -1 case 2: $2, $8, $3, $4, $1 = $r.readMessageV2($5, $6, $7) default: $1 = $r.header.badMagic() } return }" ∧
+    Gen.decoderFacts.v1Loop = "{ for $r.readerStack != nil { if $r.remain == 0 { $r.readerStack = $r.parent continue } must($r.readHeader()) $1 = $r.header.firstOffset $2 = $r.header.v1.timestamp var $3 CompressionCodec $3 = must($r.header.compression()) if $3 != nil { must($r.discardN(4)) $r.decompressed.Reset() must($r.readBytesWith(func($4 *bufio.Reader, $5 int, $6 int) ($7 int, $8 error) { })) $1 = must(extractOffset($1, $r.decompressed.Bytes())) $r.markRead() $r.readerStack = &readerStack{reader: bufio.NewReaderSize($r.decompressed, 0), remain: $r.decompressed.Len(), base: $1, parent: $r.readerStack} continue } $1 += $r.base if $1 < $9 { must($r.discardBytes()) must($r.discardBytes()) $r.markRead() continue } must($r.readBytesWith($10)) must($r.readBytesWith($11)) $r.markRead() return } $8 = errShortRead return }" ∧
+    Gen.decoderFacts.msrMarkRead = "{ if $r.count == 0 { panic(\"markRead: negative count\") } $r.count-- $r.unwindStack() }" ∧
+    Gen.decoderFacts.msrUnwind = "{ for $r.count == 0 { if $r.remain == 0 { if $r.parent != nil { $r.readerStack = $r.parent continue } } break } }" :=
+  ⟨rfl, rfl, rfl, rfl⟩
+
 /-! ## 0. The defects of the pinned code (`Variant.legacy`), kept as theorems about the legacy model
 
 These are the layouts replayed against the real code before the `fix:` commits (seeded/D4-…, D14-…, D15-…). -/
